@@ -40,7 +40,7 @@ def gen_cases(tier, seed):
         sch = dict(r.choice(scheds))
         sch["sched_seed"] = r.randrange(1 << 30)
         use = r.random() < 0.93
-        yield {"spec": spec, "driver": driver, "bs": bs, "workers": r.choice([1, 2, 4, 8, 16]), "policy": pol, "plan": sch, "overwrite": r.random() < 0.25, "use": use, "maxblocks": maxblocks, "fs": "ext4",
+        yield {"spec": spec, "driver": driver, "bs": bs, "workers": r.choice([0, 1, 2, 4, 8, 16]), "policy": pol, "plan": sch, "overwrite": r.random() < 0.25, "use": use, "maxblocks": maxblocks, "fs": "ext4",
                "extra": r.choice([[], [], [], ["--no-perms"], ["--no-timestamps"], ["--no-perms", "--no-timestamps"], ["--ownership"], ["--backup", "numbered"], ["-L"], ["--gitignore"], ["--reflink", "never"]])}
 
 
